@@ -1,6 +1,5 @@
 From Coq Require Import Extraction ExtrOcamlBasic.
-From LCP Require Import Base.ExtractBase Base.CheckedMem Gen.Repo_hash Alg.Words Alg.Sha256Model
-     Alg.MD32Model Alg.HmacModel Alg.HashRepo Alg.MDSpec Alg.Sha256Spec Alg.Sha1Spec Alg.Md5Spec Alg.HashSpecs.
+From LCP Require Import Base.ExtractBase Base.CheckedMem Gen.Repo_hash Alg.Words Alg.Sha256Model Alg.MD32Model Alg.HmacModel Alg.HashRepo Alg.MDSpec Alg.Sha256Spec Alg.Sha1Spec Alg.Md5Spec Alg.HashSpecs.
 Extraction Language OCaml.
 Extraction "hash.ml" force_number_types
   sha256_init sha256_update sha256_final sha256_buf sha256_transform c256_is_zero
